@@ -126,7 +126,8 @@ class Scheduler:
 
     def point(self, tid, name):
         # the point is about to execute: pause *before* it when the budget is exhausted
-        if self.budget.get(tid, -1) == 0:
+        # budget 0: pause before this point; budget -2: run on and pause before the next entry of a function of the world
+        if self.budget.get(tid, -1) == 0 or (self.budget.get(tid, -1) == -2 and name.endswith(":PY_START:")):
             self.stops.append([tid, name])
             self.reason = ("stop", tid)
             self.main_sem.release()
